@@ -40,6 +40,9 @@ THEOREMS = [
     "simpleagg_eq_hashagg_nokeys_first_unsound",
     "simpleagg_is_chunkpath", "sortagg_nokeys_is_rowpath",
     "hashagg_groupwise", "hashagg_eq_spec_partial", "sortagg_one_run", "hashagg_eq_sortagg_one_run",
+    # merge join
+    "groupByKeys_eq_runs", "groupByKeys_empty_keys", "mergejoin_groups_sorted", "merge_eq_hash_empty_keys_unsound",
+    "mergeLoop_left", "mergejoin_inner_sorted", "merge_eq_hash_inner", "merge_eq_hash_left_outer",
     "saLoop_runs", "sortagg_runs", "hashagg_eq_sortagg", "hashagg_eq_sortagg_unsorted_unsound",
 ]
 
